@@ -276,3 +276,72 @@ pub fn gen_c05(out: &mut dyn Write, thorough: bool, seed: u64) {
         writeln!(out, "S {} c05", ops.join(",")).unwrap();
     }
 }
+
+/// texts with ZWJ sequences, regional indicators, combining marks, Hangul jamo, CR/LF and all six character types
+pub fn grapheme_text(r: &mut Rng, max_units: usize) -> String {
+    const UNITS: &[&str] = &[
+        "a", "Z", "7", "９", "あ", "カ", "ｶ", "漢", "𠮷", "。", " ", "\r", "\n", "\r\n", "e\u{301}", "か\u{3099}", "👨\u{200d}👩\u{200d}👧",
+        "🇯🇵", "🇺", "\u{200d}", "\u{301}", "🏳\u{fe0f}\u{200d}🌈", "각", "\u{1100}\u{1161}\u{11a8}", "👍🏽", "\u{600}a", "ก\u{e33}",
+    ];
+    let n = r.range(1, max_units as i64) as usize;
+    (0..n).map(|_| *r.pick(UNITS)).collect()
+}
+
+pub fn gen_c15(out: &mut dyn Write, thorough: bool, seed: u64) {
+    use crate::filt::cluster_lengths;
+    let mut r = Rng::new(seed ^ 0xC15);
+    let emit = |out: &mut dyn Write, r: &mut Rng, text: &str, labels: &str| {
+        let n = text.chars().count();
+        let mut pre = format!("Fraw:{},setbs:{}", hexs(text), labels);
+        let k = r.below(3);
+        if k > 0 {
+            pre.push_str(&format!(",reset:{k}"));
+            for i in 0..n * k {
+                if r.chance(1, 3) {
+                    pre.push_str(&format!(",sett:{}:{}", i, hexs(["x", "名詞", "y z"][r.below(3)])));
+                }
+            }
+        }
+        let cl = cluster_lengths(text).iter().map(|x| x.to_string()).collect::<Vec<_>>().join(".");
+        for t in 1..=6 {
+            writeln!(out, "S {pre},filter:ws:{t},obs:TYBKG c15").unwrap();
+        }
+        writeln!(out, "S {pre},filter:lb,obs:TYBKG c15").unwrap();
+        writeln!(out, "S {pre},filter:gc:{},obs:TYBKG c15", if cl.is_empty() { "-".into() } else { cl }).unwrap();
+        // tagger: rules for some surfaces of the text (substrings), with short / absent entries
+        let chars: Vec<char> = text.chars().collect();
+        let mut rules: Vec<String> = vec![];
+        for _ in 0..r.range(0, 4) {
+            let a = r.below(n);
+            let b = (a + 1 + r.below(3)).min(n);
+            let surf: String = chars[a..b].iter().collect();
+            let nt = r.below(4);
+            let tags: Vec<String> = (0..nt).map(|j| if r.chance(1, 4) { "~".into() } else { hexs(&format!("R{j}")) }).collect();
+            let entry = format!("{}={}", hexs(&surf), tags.join("+"));
+            if !rules.iter().any(|x| x.split('=').next() == entry.split('=').next()) {
+                rules.push(entry);
+            }
+        }
+        let rs = if rules.is_empty() { "-".to_string() } else { rules.join("/") };
+        writeln!(out, "S {pre},filter:tag:{rs},obs:TYBKG c15").unwrap();
+    };
+    // exhaustive: all sentences of <= 4 chars over 6 symbols x all label vectors (quick: <= 3)
+    let max_len = if thorough { 4 } else { 3 };
+    let mut texts = vec![];
+    all_strings(&['a', '\r', '\n', 'e', '\u{301}', '🇯'], max_len, &mut |s| texts.push(s.to_string()));
+    for t in &texts {
+        let n = t.chars().count();
+        let mut labs = vec![];
+        all_labels(n - 1, &mut |l| labs.push(l.to_string()));
+        for l in labs {
+            emit(out, &mut r, t, &l);
+        }
+    }
+    let count = if thorough { 60000 } else { 1200 };
+    for _ in 0..count {
+        let text = grapheme_text(&mut r, 8);
+        let n = text.chars().count();
+        let labels = rand_labels(&mut r, n - 1, &['N', 'W', 'U']);
+        emit(out, &mut r, &text, &labels);
+    }
+}
